@@ -7,7 +7,8 @@ Case JSON (one of):
        {"op":"take","lim","key","down"} | {"op":"tick","ms"} | {"op":"conc","lim","key","g"} | {"op":"replace"}]}
   {"kind":"token","rate","burst","insts":1|2,"t0":ms,"ops":[
        {"op":"allow","inst","n","ctx","skew"} | {"op":"tick","ms"} | {"op":"conc","inst","g","n"} |
-       {"op":"fault","eval","ping","hard"} | {"op":"replace","eval","ping"}]}
+       {"op":"fault","eval","ping","hard"} | {"op":"replace","eval","ping"} |
+       {"op":"sleep","ms"}  (a tick that also takes the same real time: the monitor keeps pinging)]}
   replace = the miniredis is closed and a NEW instance (empty data, empty script cache) is started on the
   same address; limiters with the same pfx / the token instances share their Redis keys.
 """
@@ -46,7 +47,9 @@ RULE = ("period cases: 1-2 limiters (period 1..60 s, quota 0..8, 25% Align()), 1
         "clock steps {0,1,1000/rate+-1,999,1000,1001,(ttl-1)s,ttl s-1ms,ttl s,ttl s+1ms,(ttl+1)s,random} applied to "
         "both clocks, cancelled / expired contexts, G concurrent AllowN, and (22% of token cases) "
         "outage patterns (EVAL and/or PING answered with errors, or listener closed and restarted) with the monitor "
-        "awaited whenever PING is answered; the server that comes back is in 40% of the recoveries a REPLACEMENT (old miniredis "
+        "awaited whenever PING is answered; every run starts with long outages (quick: 1.3 s and 3 s, thorough: 24 of "
+        "1.5-10 s REAL time, 30% with the listener closed) during which the 100 ms monitor keeps pinging in vain, followed by "
+        "recovery (restart or replacement) and 10-14 requests that must all be decided by Redis again; the server that comes back is in 40% of the recoveries a REPLACEMENT (old miniredis "
         "closed, a new one started on the same address: empty data and script cache), also swapped in between calls of a "
         "healthy limiter (15% of the non-outage token cases, 20% of the period cases); 30% of the token cases run two "
         "TokenLimiter instances on the one key, 18% of the period cases two PeriodLimit instances on the same keys; non-trivial = (period) a HitQuota/OverQuota and a restart after expiry "
@@ -66,6 +69,10 @@ ASSUMPTIONS = ["one clock: the caller's now equals the server clock and never go
                "a replaced server has lost the counters / the bucket of the old one: the window automaton and the bucket "
                "restart empty there (spec_ok additionally requires that a decision by Redis leaves level and second in the "
                "two bucket keys of the server that is listening)",
+               "the limiter's redis handle adds no memory of its own: whether a call reaches the server depends on the "
+               "server only (model: eval_up / ping_up). On the unchanged tree failed pings are not booked by the handle's "
+               "breaker; the long-outage cases check this (recovery must show within 3 s of the server answering and "
+               "all following requests must be Redis's)",
                "decisions between 'Redis answers again' and the monitor's next ping are exercised only with PING still "
                "failing (deterministic); the 100 ms ping period itself is real time"]
 
@@ -209,8 +216,48 @@ def _token_case(rng, tier, outage=None):
     return {"kind": "token", "rate": rate, "burst": burst, "insts": insts, "t0": T0_BASE + rng.randrange(10 ** 9), "ops": ops}
 
 
+def _long_outage_case(rng, tier, total_ms):
+    """Redis is away for well over a second of REAL time (the monitor's 100 ms ticker keeps pinging and
+    failing all along), then answers again: from the first answered ping on every decision must be
+    Redis's again -- whatever the limiter's redis handle remembered about the failures in between."""
+    rate, burst = rng.choice([(1, 5), (2, 5), (5, 10), (2, 20), (1, 1), (10, 10)])
+    insts = 2 if rng.random() < 0.4 else 1
+    al = lambda n, inst=0: {"op": "allow", "inst": inst, "n": n, "ctx": 0, "skew": 0}
+    ops = [al(1, rng.randrange(insts)) for _ in range(rng.randint(0, 2))]
+    hard = rng.random() < 0.3
+    ops.append({"op": "fault", "eval": False, "ping": False, "hard": hard})
+    for i in range(insts):
+        ops.append(al(1, i))                      # the error that starts the monitor of instance i
+    parts = rng.randint(1, 3)
+    cuts = sorted(rng.randint(1, total_ms - 1) for _ in range(parts - 1))
+    prev = 0
+    for cut in cuts + [total_ms]:
+        ops.append({"op": "sleep", "ms": cut - prev})
+        prev = cut
+        ops.append(al(rng.choice([1, 1, 2]), rng.randrange(insts)))   # decided by the in-process bucket
+    if hard or rng.random() < 0.5:
+        ops.append({"op": "fault", "eval": True, "ping": True, "hard": False})
+    else:
+        ops.append({"op": "replace", "eval": True, "ping": True})
+    for _ in range(rng.randint(10, 14)):
+        if rng.random() < 0.2:
+            ops.append({"op": "tick", "ms": rng.choice([0, 1, 250, 1000])})
+        else:
+            ops.append(al(rng.choice([1, 1, 1, 2]), rng.randrange(insts)))
+    return {"kind": "token", "rate": rate, "burst": burst, "insts": insts, "t0": T0_BASE + rng.randrange(10 ** 9), "ops": ops}
+
+
+def _long_outages(rng, tier):
+    if tier == "thorough":
+        spans = [1500, 2000, 3000, 3000, 5000, 10000] * 4
+    else:
+        spans = [1300, 3000]
+    return [_long_outage_case(rng, tier, ms) for ms in spans]
+
+
 def generate(rng, tier, n):
-    cases = []
+    cases = _long_outages(rng, tier)
+    n = max(0, n - len(cases))
     for _ in range(n):
         if rng.random() < 0.45:
             cases.append(_period_case(rng, tier))
@@ -298,7 +345,7 @@ def encode(case, obs):
         return "CToken %s %s %s true []" % (cZ(case["rate"]), cZ(case["burst"]), cZ(case["t0"]))
     ops = []
     for op, o in zip(case["ops"], obs["ops"]):
-        if op["op"] == "tick":
+        if op["op"] in ("tick", "sleep"):
             ops.append("XTTick %s %s" % (cZ(op["ms"]), _snap(o)))
         elif op["op"] == "allow":
             ops.append("XTAllow %s %s %s %s %s %s" % (cnat(op.get("inst", 0)), cZ(op["n"]), cnat(op.get("ctx", 0)),
@@ -366,6 +413,8 @@ def bucket(case, obs):
         out.append("hyp:skew")
     prev_present = False
     replaced = False
+    if any(op["op"] == "sleep" for op in case["ops"]):
+        out.append("outage:long-%ds" % round(sum(op["ms"] for op in case["ops"] if op["op"] == "sleep") / 1000.0))
     if case.get("insts", 1) == 2:
         out.append("token:two-instances")
     for op, o in zip(case["ops"], obs["ops"]):
